@@ -326,7 +326,7 @@ pub fn run(ctx: &Ctx) {
     );
     ctx.assume("burst detection is asserted only for corruptions confined to the digested bytes with unchanged decoded length");
     let na = apis().len();
-    let n = ctx.tier.pick(30_000, 1_000_000);
+    let n = ctx.tier.pick(200_000, 2_000_000);
     let scfg = ShapeCfg::default();
     ctx.par_proptest(
         "forward",
@@ -335,7 +335,7 @@ pub fn run(ctx: &Ctx) {
         |(ai, (s, v), tail), l| check_forward(*ai, s, v, tail, l),
     );
     // corruption families on raw payloads (length is immune to corruption) and on typed values
-    let n = ctx.tier.pick(600, 12_000);
+    let n = ctx.tier.pick(1_000, 12_000);
     ctx.par_proptest(
         "corruptions-raw",
         n,
@@ -363,7 +363,7 @@ pub fn run(ctx: &Ctx) {
         },
     );
     // arbitrary inputs: acceptance implies a correct checksum
-    let n = ctx.tier.pick(200_000, 8_000_000);
+    let n = ctx.tier.pick(1_000_000, 10_000_000);
     ctx.par_proptest(
         "converse-random",
         n,
